@@ -349,8 +349,9 @@ def run_lines(exe, lines, env=None, timeout=300, shards=None):
         while pos < len(chunk):
             data = ("\n".join(chunk[pos:]) + "\n").encode("latin-1")
             try:
+                # the limit is for a hang on ONE line; a long shard on a loaded machine is not a hang
                 r = subprocess.run([exe], input=data, stdout=subprocess.PIPE, stderr=subprocess.PIPE,
-                                   env=env or SAN_ENV, timeout=timeout)
+                                   env=env or SAN_ENV, timeout=timeout + 0.25 * (len(chunk) - pos))
                 rc, so, se = r.returncode, r.stdout, r.stderr
             except subprocess.TimeoutExpired as e:
                 rc, so, se = -999, e.stdout or b"", b"timeout"
